@@ -23,7 +23,7 @@ rows = []
 for sid in sorted(res):
     r = res[sid]; own = sid.split('-')[0]
     verdict = 'caught' if r['exit'] == 1 else ('undecided (exit 2)' if r['exit'] == 2 else 'missed')
-    results[sid] = dict(command='tools/seed_matrix.sh %s   (= ./check %s --tier %s against a scratch copy of /repo/include with the patch applied)' % (sid, r['prop'], r['tier']),
+    results[sid] = dict(command=('tools/seed_matrix.sh %s   (= ./check %s --tier quick against a scratch copy of /repo/include with the patch applied)' % (sid, r['prop'])) if r['tier'] == 'quick' else ('git -C /repo apply seeded/%s/patch.diff && ./check %s --tier thorough --only %s; git -C /repo checkout -- .' % (sid, r['prop'], ','.join(r['caught_by']))),
                         exit=r['exit'], verdict=verdict, caught_by=r['caught_by'], rebased=sid in rebased,
                         note=notes.get(sid, '') + ('' if r['prop'] == own else ' [property %s is not claimed; run against the checks of %s, which cover the changed function]' % (own, r['prop'])))
     by = ', '.join(r['caught_by'][:6]) + (' … (%d checks)' % len(r['caught_by']) if len(r['caught_by']) > 6 else '')
